@@ -15,7 +15,7 @@ def lookup (r : Run) (id : Nat) (key : String) : Option Int :=
 /-- **a hit skips everything inside**: the cached value is returned with no error and a successful verdict; the result, the
 world (every stateful policy inside), the counters and the script are the same **whatever the inner layer is** — it is never
 entered; the only event is the hit -/
-theorem cache_hit_skips_inner (fuel pos id : Nat) (key : String) (cif : Option Nat) (inner : Layer) (r : Run) (v : Int)
+theorem cache_hit_skips_inner (fuel pos id : Nat) (key : String) (cif : List Nat) (inner : Layer) (r : Run) (v : Int)
     (hhit : lookup r id key = some v) :
     applyPolicy fuel pos (.cache id key cif) inner r = some (⟨v, none, true, true, true⟩, r.emit "ca.onHit" pos) := by
   simp only [applyPolicy, lookup] at *
@@ -27,7 +27,7 @@ theorem cache_hit_skips_inner (fuel pos id : Nat) (key : String) (cif : Option N
   · simp [hk] at hhit
 
 /-- corollary: on a hit the function is not invoked and no inner policy is affected -/
-theorem cache_hit_world_unchanged (fuel pos id : Nat) (key : String) (cif : Option Nat) (inner : Layer) (r : Run) (v : Int)
+theorem cache_hit_world_unchanged (fuel pos id : Nat) (key : String) (cif : List Nat) (inner : Layer) (r : Run) (v : Int)
     (hhit : lookup r id key = some v) (res : PR) (r' : Run)
     (h : applyPolicy fuel pos (.cache id key cif) inner r = some (res, r')) :
     r'.w = r.w ∧ r'.inv = r.inv ∧ r'.script = r.script ∧ r'.attempts = r.attempts ∧ res.val = v ∧ res.err = none := by
@@ -41,7 +41,7 @@ def stored (r : Run) (id : Nat) (k : String) (v : Int) : Run :=
   { r with w := { r.w with caches := r.w.caches.set id ((k, v) :: ((r.w.caches[id]?).getD []).filter (·.1 != k)) } }
 
 /-- **on a miss the inner result is returned unchanged** (flags included) **and stored iff cacheable and a key exists** -/
-theorem cache_miss_spec (fuel pos id : Nat) (key : String) (cif : Option Nat) (inner : Layer) (r : Run)
+theorem cache_miss_spec (fuel pos id : Nat) (key : String) (cif : List Nat) (inner : Layer) (r : Run)
     (hmiss : lookup r id key = none) :
     applyPolicy fuel pos (.cache id key cif) inner r =
       match inner (r.emit "ca.onMiss" pos) with
@@ -63,13 +63,16 @@ theorem cache_miss_spec (fuel pos id : Nat) (key : String) (cif : Option Nat) (i
   rfl
 
 /-- stored **iff** the result carries no error (or satisfies the configured `CacheIf` condition) **and** the key is non-empty -/
-theorem cache_store_iff (cif : Option Nat) (res : PR) :
+theorem cache_store_iff (cif : List Nat) (res : PR) :
     shouldCache cif res = true ↔
-      (cif = none ∧ res.err = none) ∨ (∃ p, cif = some p ∧ predicate p res.outcome = true) := by
+      (cif = [] ∧ res.err = none) ∨ (∃ p ∈ cif, predicate p res.outcome = true) := by
   unfold shouldCache
-  cases cif with
-  | none => simp [Option.isNone_iff_eq_none]
-  | some p => simp
+  simp [Option.isNone_iff_eq_none, List.isEmpty_iff]
+
+/-- every `CacheIf` call counts: adding a condition never stops an outcome from being stored that an earlier condition accepts -/
+theorem cache_conditions_accumulate (cif : List Nat) (q : Nat) (res : PR) (p : Nat) (hp : p ∈ cif)
+    (h : predicate p res.outcome = true) : shouldCache (cif ++ [q]) res = true := by
+  rw [cache_store_iff]; exact Or.inr ⟨p, by simp [hp], h⟩
 
 /-- a string key supplied through the context takes precedence over the configured key — even when it is empty -/
 theorem ctx_key_precedence (r : Run) (key ck : String) (h : r.ctxKey = some ck) : cacheKeyOf r key = ck := by
@@ -79,7 +82,7 @@ theorem configured_key_without_ctx (r : Run) (key : String) (h : r.ctxKey = none
   simp [cacheKeyOf, h]
 
 /-- with no key the cache is neither read nor written: the layer is the inner layer plus the miss event -/
-theorem no_key_no_io (fuel pos id : Nat) (key : String) (cif : Option Nat) (inner : Layer) (r : Run)
+theorem no_key_no_io (fuel pos id : Nat) (key : String) (cif : List Nat) (inner : Layer) (r : Run)
     (hk : cacheKeyOf r key = "") :
     applyPolicy fuel pos (.cache id key cif) inner r = inner (r.emit "ca.onMiss" pos) := by
   have hmiss : lookup r id key = none := by simp [lookup, hk]
